@@ -860,6 +860,11 @@ def _handle_attributes(e, position, part):
     for clef in clefs:
         part.add(score.Clef(**clef), position)
 
+    for staff_e in e.findall("staff-details"):
+        number = get_value_from_attribute(staff_e, "number", int) or 1
+        lines = get_value_from_tag(staff_e, "staff-lines", int)
+        part.add(score.Staff(number, lines), position)
+
 
 def get_offset(e):
     offset = e.find("offset")
